@@ -201,11 +201,28 @@ fn judge(container: &V, absent: &[u64], ctx: &mut CaseCtx) {
     if nkeys >= 2 && items.iter().any(|i| !matches!(i, V::Pair(..))) {
         ctx.nontrivial(fnv(format!("{}", container).as_bytes()));
     }
+    // the container is built into a fresh object and into one that already holds a few unrelated values (the item
+    // addresses, which one implementation places by, are then shifted by 1..7)
+    let shift = 1 + (fnv(format!("{}", container).as_bytes()) % 7) as i32;
     for imp in Impl::BOTH {
-        ctx.sub_evals += 1;
-        match imp {
-            Impl::Simple => judge_on(&mut new_simple(), imp, container, absent, ctx),
-            Impl::Basic => judge_on(&mut new_basic(), imp, container, absent, ctx),
+        for prelude in [0, shift] {
+            ctx.sub_evals += 1;
+            match imp {
+                Impl::Simple => {
+                    let mut d = new_simple();
+                    for k in 0..prelude {
+                        let _ = garnish_lang_traits::GarnishData::add_number(&mut d, SimpleNumber::Integer(7_000_000 + k));
+                    }
+                    judge_on(&mut d, imp, container, absent, ctx)
+                }
+                Impl::Basic => {
+                    let mut d = new_basic();
+                    for k in 0..prelude {
+                        let _ = garnish_lang_traits::GarnishData::add_number(&mut d, SimpleNumber::Integer(7_000_000 + k));
+                    }
+                    judge_on(&mut d, imp, container, absent, ctx)
+                }
+            }
         }
         judge_instructions(imp, container, absent, ctx);
     }
@@ -256,7 +273,7 @@ impl Check for C16Check {
     }
     fn rule(&self) -> String {
         "Phase small-lists: every list of length 0..4 over six item kinds (number, text, symbol, pair keyed by a symbol, pair keyed by a number, nested list holding a keyed pair), distinct keys; phase random: lists of up to 64 items with adversarial raw 64-bit symbol keys (all equal modulo the length, congruent to length-1, minimum and maximum u64, ascending, descending, interleaved extremes, random), and concatenations of two or three such lists; phase size-sweep: keyed lists (all keyed, every third item unkeyed, split into a concatenation of two lists) of every size in 8..300 (thorough ..1000) around powers of two and round numbers under the seven key patterns. \
-         Each container is built through the data API on both data implementations. Oracle (a plain Vec model): get_list_len = n; get_list_item(k) reads back item k for 0<=k<n and reports no item (never an error) past the end; get_list_item_iter yields the items in insertion order; get_list_item_with_symbol returns the value of the pair keyed by each present symbol and 'absent' (never an error) for absent symbols including ones colliding modulo the length; \
+         Each container is built through the data API on both data implementations, into a fresh object and into one that already holds 1..7 unrelated values. Oracle (a plain Vec model): get_list_len = n; get_list_item(k) reads back item k for 0<=k<n and reports no item (never an error) past the end; get_list_item_iter yields the items in insertion order; get_list_item_with_symbol returns the value of the pair keyed by each present symbol and 'absent' (never an error) for absent symbols including ones colliding modulo the length; \
          the Access and Apply instructions with every index in {-1, 0, n-1, n, n+3} and every present / absent symbol give the same answers (unit for absent), also on concatenations. \
          Non-trivial = at least two symbol keys plus at least one unkeyed item; distinct = distinct containers."
             .to_string()
